@@ -39,7 +39,7 @@ def _run_rules(prop: str, root: str):
             known |= set(([k["key"]] if "key" in k else []) + list(k.get("keys", [])))
     unlisted = [v for v in ctx.violations if v["key"] not in known]
     if unlisted:
-        return "violation", [f"{v['rule']} {v['construct']}"[:160] for v in unlisted]
+        return "violation", [f"{v['rule']} {v['construct']} <{v['key']}>"[:220] for v in unlisted]
     if ctx.unmet_floors:
         return "analysis-error", ctx.unmet_floors[:2]
     return "silent", []
@@ -54,13 +54,23 @@ def _variant(repo_root: str, patch: str, prop: str):
     d = tempfile.mkdtemp(prefix="vsens.")
     try:
         shutil.copytree(os.path.join(repo_root, "flow"), os.path.join(d, "flow"), ignore=shutil.ignore_patterns("__pycache__"))
+        pinned = None
+        mp = os.path.join(os.path.dirname(patch), "meta.json")
+        if os.path.exists(mp):
+            import json
+            with open(mp) as fh:
+                pinned = json.load(fh).get("evaluate_on_ancestor")
         ap = subprocess.run(["git", "apply", patch], cwd=d, capture_output=True, text=True)
-        if ap.returncode == 0:
+        if ap.returncode == 0 and not pinned:
             status, detail = _run_rules(prop, d)
             return status, detail[:3]
         # The change was recorded against an earlier commit and a later fix: commit touched the same lines. It is evaluated where it was
         # written: on the newest ancestor it applies to, and only what the change ADDS to that ancestor's own report counts.
-        for commit in _ancestors(repo_root):
+        ancestors = _ancestors(repo_root)
+        if pinned:
+            # a change that a later fix: commit made harmless is evaluated on the commit it was written for
+            ancestors = [c for c in ancestors if c.startswith(pinned)] or ancestors
+        for commit in ancestors:
             shutil.rmtree(os.path.join(d, "flow"), ignore_errors=True)
             ar = subprocess.run(f"git -C {repo_root} archive {commit} flow | tar -x -C {d}", shell=True, capture_output=True, text=True)
             if ar.returncode != 0:
@@ -72,7 +82,11 @@ def _variant(repo_root: str, patch: str, prop: str):
             p_status, p_detail = _run_rules(prop, d)
             note = f"(evaluated on ancestor {commit[:7]}, relative to that tree's own report)"
             if p_status == "violation":
-                added = [x for x in p_detail if x not in set(b_detail if b_status == "violation" else [])]
+                def _k(x):  # the finding's key when it has one (a refactoring may rename the construct, the key stays)
+                    return x[x.rindex("<"):] if "<" in x else x
+
+                base_keys = {_k(x) for x in (b_detail if b_status == "violation" else [])}
+                added = [x for x in p_detail if _k(x) not in base_keys]
                 return ("violation", added[:3] + [note]) if added else ("silent", [note])
             if p_status == "analysis-error" and b_status != "analysis-error":
                 return "analysis-error", p_detail[:2] + [note]
